@@ -150,7 +150,7 @@ def run_verus(text, modules=None, rlimit=60, timeout=900, threads=16, extra=(), 
         shutil.rmtree(d, ignore_errors=True)
 
 
-def classify(res, text, fns):
+def classify(res, text, fns, ins_lines=()):
     """turn raw diagnostics into Diag objects with function + kinds"""
     lines = text.split('\n')
     out = []
@@ -191,6 +191,8 @@ def classify(res, text, fns):
             if cand:
                 break
         dg.fn = cand
+        if not kinds and prim and prim[0]['line_start'] in ins_lines and 'precondition' in msg:
+            kinds = ['value']     # a lemma call / ghost precondition inside inserted proof text
         if not kinds:
             for rx, k in _DEFAULT_KIND:
                 if rx.search(msg):
